@@ -6,7 +6,8 @@ Definition ctx := Z.
 (* the context types of the harness (harness/src/app.rs): mode and priority are type-level constants *)
 Definition ctx_shared (c : ctx) : bool := Z.odd c.
 Definition ctx_prio (c : ctx) : Z :=
-  match c with 0 => 30 | 1 => 20 | 2 => -10 | 3 => 0 | 4 => 10 | 5 => -20 | 6 => 15 | _ => 5 end.
+  (* 5 and 6 carry isize::MIN and isize::MAX (64-bit target): legal priorities, "always last" / "always first" *)
+  match c with 0 => 30 | 1 => 20 | 2 => -10 | 3 => 0 | 4 => 10 | 5 => -9223372036854775808 | 6 => 9223372036854775807 | _ => 5 end.
 
 Inductive group :=
 | GExcl (c : ctx) (prio : Z) (insts : list (entity * inst))
